@@ -111,6 +111,14 @@ func C09(r *drv.Run) {
 			}
 		}
 	}
+	// several commands over the same files, and the same file listed twice: whatever a command leaves
+	// behind (a closed reader, a rewritten file) must not trip the next one
+	multiCmd := []string{
+		"replace all 'a' with 'b'\nfind all 'b'",
+		"replace all digit with '#'\nreplace all '#' with '9'\nfind all '9'",
+		"find all 'a'\nreplace all 'a' with 'aa'\nfind all 'aa'",
+		"set f to transform return matchLength end\nreplace all at least 1 letter with f\nfind all digit\nreplace all digit with f",
+	}
 	r.Count("mutant_sources", len(mutants))
 	// legal but odd: the empty string in every place a string may stand (literal, caseless, not, list item,
 	// either bound of a range, capture body, loop body, alternative, `with` item), reached at every position
@@ -151,6 +159,24 @@ func C09(r *drv.Run) {
 		c := wire.Case{Op: "run", Src: []byte(src), Texts: texts, StepBudget: 400000}
 		if i%7 == 0 {
 			c = wire.Case{Op: "runfiles", Src: []byte(src), Files: tinyPaths, Mode: "NOTHING", StepBudget: 400000}
+		}
+		if i < 3*len(multiCmd)*2 {
+			// multi-command programs through RunFiles in every mode, on private copies of the tiny files
+			src = multiCmd[i%len(multiCmd)]
+			mode := []string{"NOTHING", "NEW", "OVERWRITE"}[(i/len(multiCmd))%3]
+			d := filepath.Join(filesDir, fmt.Sprintf("multi%d", i))
+			os.MkdirAll(d, 0o755)
+			var paths []string
+			for k, b := range tiny {
+				p := filepath.Join(d, fmt.Sprintf("t%d.txt", k))
+				os.WriteFile(p, b, 0o644)
+				paths = append(paths, p)
+			}
+			if i >= 3*len(multiCmd) {
+				paths = append(paths, paths[1], paths[2]) // the same files listed twice
+			}
+			generated = false
+			c = wire.Case{Op: "runfiles", Src: []byte(src), Files: paths, Mode: mode, StepBudget: 400000}
 		}
 		return &drv.Item{Case: c, Check: func(res *wire.Result) {
 			if res.Died {
